@@ -1180,4 +1180,10 @@ example :
 
 end SetVersion
 
+/-- **pending_count_le**: `Pending` never returns more files than the directory holds, and a returned file
+keeps its place relative to the others (any configuration, revision table and order option). -/
+theorem pending_count_le (cfg : Cfg) (all : List MFile) (revs : List Revision) (l : List MFile)
+    (h : (pending cfg all revs).out = .ok l) : l.length ≤ all.length :=
+  (pending_is_subsequence cfg all revs l h).length_le
+
 end Props.C11
